@@ -295,6 +295,9 @@ func (c *Chain) canonResult(res abci.ResponseDeliverTx) string {
 	if m := reMsgIndex.FindStringSubmatch(res.Log); m != nil {
 		return fmt.Sprintf("R msg %s %s %d", m[1], res.Codespace, res.Code)
 	}
+	if res.Codespace == "sdk" && res.Code == 9 && (strings.Contains(res.Log, "address max length") || strings.Contains(res.Log, "addresses cannot be empty")) {
+		return "R vb undefined 1" // see vbAnswer: unwrapped address-format errors are one class with unwrapped bech32 errors
+	}
 	if res.Codespace == "sdk" && anteCodes[res.Code] {
 		return "R ante"
 	}
